@@ -7,6 +7,7 @@ import (
 	"context"
 	"io"
 	"net"
+	"net/netip"
 	"time"
 
 	"github.com/daeuniverse/dae/component/sniffing"
@@ -257,4 +258,67 @@ func Verif_C05_prefetch() {
 	want := append(append([]byte{}, a1...), a2...)
 	vs.Assert("relay ends cleanly", err == nil)
 	vs.Assert("the first connection's upstream receives exactly the first client's bytes", c05Same(upstream.out, want))
+}
+
+// Verif_C05_port53: a client connection to destination port 53 that does not open with a DNS query,
+// taken through the real detection step of handleConn (handleTCPDnsFastPath over the bufio.Reader
+// handleConn creates) and then, as handleConn does, through the relay over a bufioConn. First bytes:
+// an announced length below a DNS header (arbitrary bytes), a plausible length with a body that is
+// no DNS message, a well-formed DNS message that is a response, a single byte inside the detection
+// window with the rest later, nothing inside the window. Detection must decline the stream, leave
+// no read deadline armed on the connection (an armed one cuts the connection when it expires), and
+// the upstream must receive every byte the client sent, in order.
+func Verif_C05_port53() {
+	vs.Schedules(0)
+	vs.Assume(time.Now().After(time.Unix(1000, 0)))
+	client, upstream := c05New(), c05New()
+	var early, late [][]byte // what arrives inside the detection window, and after it
+	switch vs.Choice("firstBytes", 5) {
+	case 0:
+		b := vs.Bytes("client.first", 5)
+		vs.Assume(b[0] == 0 && b[1] < 12)
+		early = [][]byte{b}
+	case 1:
+		early = [][]byte{{0, 14, 0x12, 0x34, 0x01, 0x00, 0, 1, 0, 0, 0, 0, 0, 0, 0xff, 0xff}}
+	case 2: // id 0x1234, QR=1, one question "a. IN A"
+		early = [][]byte{{0, 19, 0x12, 0x34, 0x81, 0x80, 0, 1, 0, 0, 0, 0, 0, 0, 1, 'a', 0, 0, 1, 0, 1}}
+	case 3:
+		early = [][]byte{vs.Bytes("client.first", 1)}
+		late = [][]byte{vs.Bytes("client.second", 2)}
+	case 4:
+		late = [][]byte{vs.Bytes("client.first", 3)}
+	}
+	late = append(late, vs.Bytes("client.tail", 2))
+	s1 := vs.Bytes("upstream.seg1", 2)
+	var wantUp []byte
+	for _, seg := range early {
+		wantUp = append(wantUp, seg...)
+		client.in <- seg
+	}
+	for _, seg := range late {
+		wantUp = append(wantUp, seg...)
+	}
+	client.detecting = true
+	bufReader := bufio.NewReader(client)
+	cp := &ControlPlane{}
+	handled, _ := cp.handleTCPDnsFastPath(context.Background(), client, bufReader,
+		netip.MustParseAddrPort("10.0.0.1:4000"), netip.MustParseAddrPort("1.1.1.1:53"), &bpfRoutingResult{})
+	client.detecting = false
+	vs.Assert("a stream that does not open with a DNS query is left to the relay", !handled)
+	vs.Assert("detection leaves no read deadline armed on the connection", !client.armed())
+	left := &bufioConn{Conn: client, reader: bufReader}
+	go func() {
+		for _, seg := range late {
+			client.in <- seg
+		}
+		client.closeIn()
+	}()
+	upstream.in <- s1 // the upstream's bytes are already waiting (its timing is the relay harness's subject)
+	upstream.closeIn()
+	err := RelayTCPContextWithRecords(context.Background(), left, upstream, nil, nil)
+	vs.Join()
+	vs.Assert("a clean exchange ends without error", err == nil)
+	vs.Assert("upstream receives exactly the client's bytes, the ones detection looked at included", c05Same(upstream.out, wantUp))
+	vs.Assert("client receives exactly the upstream's bytes", c05Same(client.out, s1))
+	vs.Assert("each end of stream is passed on as one write-shutdown", upstream.closeWrites == 1 && client.closeWrites == 1)
 }
